@@ -288,6 +288,12 @@ mod sym_impls {
     }
 }
 
+/// Stub for `String::from_utf8` (trusted: std's UTF-8 validator is not under
+/// verification; harness strings are ASCII, for which validation succeeds).
+pub fn stub_from_utf8(v: Vec<u8>) -> Result<String, std::string::FromUtf8Error> {
+    Ok(unsafe { String::from_utf8_unchecked(v) })
+}
+
 // ------------------------------------------------------------------ ε-copy view
 
 pub const MAX_BORROWS: usize = 8;
